@@ -121,6 +121,7 @@ type Exec struct {
 	slots64  [NSLOT + 1]*roaring64.Bitmap
 	keep64   []*roaring64.Bitmap
 	keepBufs [][]byte
+	iters    [4]*iterState
 }
 
 func newExec(u *Universe, w *bufio.Writer, tr int, seed int64) *Exec {
@@ -269,6 +270,9 @@ func (e *Exec) build(s iset, rcp string) (*roaring.Bitmap, bool) {
 				rb = cl
 			}
 		case 'z', 'u', 'r', 'f':
+			if raceEnabled && m != 'r' {
+				continue
+			}
 			var data []byte
 			var err error
 			if m == 'f' {
@@ -384,6 +388,13 @@ func (e *Exec) run(c Call) *Event {
 		}
 	}()
 	close(done)
+	for _, t := range targets { // iterators are never used across a mutation of their bitmap
+		for i, it := range e.iters {
+			if it != nil && it.slot == t {
+				e.iters[i] = nil
+			}
+		}
+	}
 	if isPar {
 		// goroutine census: everything the call started must be gone (allow the runtime a moment)
 		left := 0
@@ -823,6 +834,9 @@ func (e *Exec) do(c *Call, ev *Event) (targets []int) {
 			ev.Ret = nb.Checksum() == x.Checksum() && x.Clone().Checksum() == x.Checksum()
 		}
 	default:
+		if e.doIter(c, ev) {
+			return nil
+		}
 		if !e.doSerial(c, ev, &targets) {
 			panic("unknown op " + c.Op)
 		}
@@ -939,6 +953,11 @@ func (e *Exec) sharingProbe(ev *Event, targets []int) {
 				allFlag = allFlag && r.rec.S
 			}
 			if !allFlag {
+				if os.Getenv("RVERIF_DEBUG") != "" {
+					for _, r := range refs {
+						fmt.Fprintf(os.Stderr, "shared payload: slot %d key 0x%x kind %d flag %v\n", r.slot, r.rec.K, r.rec.T, r.rec.S)
+					}
+				}
 				for x := 0; x < len(refs); x++ {
 					for y := 0; y < len(refs); y++ {
 						if x == y || refs[x].slot == refs[y].slot || done[[2]int{refs[x].slot, refs[y].slot}] || done[[2]int{refs[y].slot, refs[x].slot}] {
